@@ -26,12 +26,12 @@ MCInit ==
     /\ nw = 0 /\ nx = 0 /\ hopen = FALSE
 
 Prefixes(q) == {SubSeq(q, 1, k) : k \in 0..Len(q)}
-KVOf(q) == [i \in 1..Len(q) |-> <<q[i].m, q[i].g, q[i].n>>]
+KVOf(q) == [i \in 1..Len(q) |-> <<q[i].m, q[i].g, q[i].n, TRUE>>]
 
 (* Batches the device may send: a whole-segment prefix, or a prefix whose last segment is split.     *)
 Batches ==
     {KVOf(p) : p \in Prefixes(AQdw)} \cup
-    {KVOf(SubSeq(AQdw, 1, k - 1)) \o <<<<AQdw[k].m, AQdw[k].g, j>>>> : k \in {i \in 1..Len(AQdw) : AQdw[i].n > 1}, j \in 1..1}
+    {KVOf(SubSeq(AQdw, 1, k - 1)) \o <<<<AQdw[k].m, AQdw[k].g, j, TRUE>>>> : k \in {i \in 1..Len(AQdw) : AQdw[i].n > 1}, j \in 1..1}
 
 HandlerIdle == ~Dispatchable(AQo)      \* everything received in the previous round has been dispatched
 
@@ -40,7 +40,7 @@ MCStep ==
        /\ \E more \in BOOLEAN, b \in Batches :
              /\ (~more => HandlerIdle)              \* the 68 loop ends only after the dispatcher closed its pipe
              /\ (more => b # <<>>)
-             /\ Ev68(more, IF dmdone THEN b ELSE <<<<"devmod", "os", 1>>>> \o b)
+             /\ Ev68(more, IF dmdone THEN b ELSE <<<<"devmod", "os", 1, TRUE>>>> \o b)
              /\ hopen' = (more /\ hopen)
        /\ nx' = nx + 1 /\ nw' = nw
     \/ /\ qdx # <<>>
